@@ -42,6 +42,9 @@ func (e *c05Env) context() *plush.Context {
 		return Person{Name: "zero", Tags: []string{"t"}}, ErrSentinel
 	})
 	c.Set("failL", func() ([]Person, error) { e.reached = true; return []Person{{Name: "zero"}}, ErrSentinel })
+	c.Set("failPtr", func() (string, *c05PErr) { e.reached = true; return "partial", &c05PErr{} })
+	c.Set("failIface", func() (string, c05AppError) { e.reached = true; return "partial", &c05PErr{} })
+	c.Set("failAny", func() (string, interface{}) { e.reached = true; return "partial", ErrSentinel })
 	c.Set("mark", func(v interface{}) interface{} { e.reached = true; return v })
 	c.Set("ident", func(v interface{}) interface{} { return v })
 	c.Set("rnd", func(s string, help plush.HelperContext) (template.HTML, error) {
@@ -105,6 +108,13 @@ var c05Atoms = []c05Atom{
 	{"partial-failing-body-no-layout", `partial("pfail")`, "sentinel"},
 	{"nested-partial-with-layout-failing-body", `partial("pnest", {"layout": "lay"})`, "sentinel"},
 	{"render-with-unknown-ident", `rnd("<%= nope %>")`, "mustfail"},
+	// the error result is declared as something else than error: a pointer type, an application interface, interface{}
+	{"helper(T,*E)", `failPtr()`, "sentinel"},
+	{"helper(T,AppError)", `failIface()`, "sentinel"},
+	{"helper(T,interface{})", `failAny()`, "sentinel"},
+	// a failing partial that is JavaScript-escaped on the way (content type given with the data), with and without a layout
+	{"js-escaped-partial-failing-body", `partial("pfail.html", {"contentType": "text/javascript"})`, "sentinel"},
+	{"js-escaped-partial-with-layout-failing-body", `partial("pfail.html", {"contentType": "application/javascript", "layout": "lay.html"})`, "sentinel"},
 }
 
 type c05Expr struct {
@@ -219,7 +229,7 @@ func init() {
 			return s
 		},
 		Run:  c05Run,
-		Rule: "compositions wrapper^d ∘ statement-form ∘ expression-context^e ∘ failing-atom framed by literal text A…B: 14 block wrappers (top, if, else, for over a slice / an Iterator / a map, fn body, helper block, contentFor→contentOf plain / with a default block / with data, contentOf default block, partial body, layout), 12 statement forms (emit, silent, let, assign, if/else-if condition, for iterable, return, partial/contentOf data), 38 expression contexts (each operand side of all 13 binary operators, !, array/hash element, index container/index, Go-helper/user-fn/method argument), 19 failing atoms (helper returning (T,err)/(err), method returning (T,err), failing helper/method as head of a .field/.method()/[i] chain, type error, index out of range, division by zero — each with a recording call so 'reached' is measured — unknown identifier, unknown function, unknown identifier as argument, unknown identifier inside a partial / a helper-rendered template, a method that does not exist on a pointer / value receiver). Oracle when the failing site was reached: err != nil, output empty, errors.Is(err, sentinel) for helper failures; an unknown identifier is tolerated exactly as direct condition or direct operand of ! == != && || and fails everywhere else. (special) failing statements inside the blocks of the built-in block helpers (htmlEscape with / without an argument, contentOf default block, contentFor + contentOf) and block helpers that fail themselves after their block ended with break / continue; one call node evaluated with callees of different signatures (loop over a mixed slice of functions, consecutive executions with the helper rebound): the failing one fails the render; assignments that cannot be carried out (to a field path, with or without a variable named like its last segment, nested, inside a block / function; to unknown variables; out of range) fail the render. Non-trivial: the failing site was reached (counted).",
+		Rule: "compositions wrapper^d ∘ statement-form ∘ expression-context^e ∘ failing-atom framed by literal text A…B: 14 block wrappers (top, if, else, for over a slice / an Iterator / a map, fn body, helper block, contentFor→contentOf plain / with a default block / with data, contentOf default block, partial body, layout), 12 statement forms (emit, silent, let, assign, if/else-if condition, for iterable, return, partial/contentOf data), 38 expression contexts (each operand side of all 13 binary operators, !, array/hash element, index container/index, Go-helper/user-fn/method argument), 24 failing atoms (helper returning (T,err)/(err) and (T,*E) / (T,AppError) / (T,interface{}), a failing partial that is JavaScript-escaped on the way, method returning (T,err), failing helper/method as head of a .field/.method()/[i] chain, type error, index out of range, division by zero — each with a recording call so 'reached' is measured — unknown identifier, unknown function, unknown identifier as argument, unknown identifier inside a partial / a helper-rendered template, a method that does not exist on a pointer / value receiver). Oracle when the failing site was reached: err != nil, output empty, errors.Is(err, sentinel) for helper failures; an unknown identifier is tolerated exactly as direct condition or direct operand of ! == != && || and fails everywhere else. (special) failing statements inside the blocks of the built-in block helpers (htmlEscape with / without an argument, contentOf default block, contentFor + contentOf) and block helpers that fail themselves after their block ended with break / continue; one call node evaluated with callees of different signatures (loop over a mixed slice of functions, consecutive executions with the helper rebound): the failing one fails the render; assignments that cannot be carried out (to a field path, with or without a variable named like its last segment, nested, inside a block / function; to unknown variables; out of range) fail the render. Non-trivial: the failing site was reached (counted).",
 		Bound: func(th bool) string {
 			if th {
 				return "d<=2 wrappers, e<=2 expression contexts"
@@ -301,7 +311,7 @@ func c05One(t *engine.T, wi, wj int, st c05Stmt, exprs []*c05Expr, at c05Atom) {
 		return c05Prelude + "A" + inner + "B"
 	}
 	t.Case(desc, true, func() (string, *engine.Fail) {
-		e := &c05Env{partials: map[string]string{"pw": "[<%= w %>]", "pnope": "<%= nope %>", "pfail": "a<%= fail() %>b", "pok": "ok", "lay": "<l><%= yield %></l>", "layfail": "<l><%= fail() %><%= yield %></l>", "laynope": "<l><%= yield %><%= nope %></l>", "pnest": `<%= partial("pfail", {"layout": "lay"}) %>`}}
+		e := &c05Env{partials: map[string]string{"pw": "[<%= w %>]", "pnope": "<%= nope %>", "pfail": "a<%= fail() %>b", "pok": "ok", "lay": "<l><%= yield %></l>", "layfail": "<l><%= fail() %><%= yield %></l>", "laynope": "<l><%= yield %><%= nope %></l>", "pnest": `<%= partial("pfail", {"layout": "lay"}) %>`, "pfail.html": "a<%= fail() %>b", "lay.html": "<l><%= yield %></l>"}}
 		src := build(e)
 		ctx := e.context()
 		ctx.Set("ident2", func(a string, v interface{}) interface{} { return v })
@@ -501,4 +511,16 @@ func c05Special(t *engine.T) {
 			return "failed-as-required", nil
 		})
 	}
+}
+
+// c05PErr is an application error type that wraps the sentinel; c05AppError an application interface embedding error.
+type c05PErr struct{}
+
+func (*c05PErr) Error() string { return "app error" }
+func (*c05PErr) Unwrap() error { return ErrSentinel }
+func (*c05PErr) Code() int     { return 7 }
+
+type c05AppError interface {
+	error
+	Code() int
 }
